@@ -525,6 +525,14 @@ fn sanitize(s: &str) -> String {
 }
 
 pub fn write_replay(dir: &str, prop: &str, seed: u64, n: u64, v: &Violation, tape: &[u64], rep: &WorldReport, prefix: &str) -> String {
+    write_replay_hist(dir, prop, seed, n, v, tape, rep, prefix, None)
+}
+
+/// `process_history = Some(from)`: the violation needs the state the worker process had built up
+/// by running worlds from..n before world n (a process-wide cache, a static); the replay then runs
+/// that prefix in one fresh process before the world itself.
+#[allow(clippy::too_many_arguments)]
+pub fn write_replay_hist(dir: &str, prop: &str, seed: u64, n: u64, v: &Violation, tape: &[u64], rep: &WorldReport, prefix: &str, process_history: Option<u64>) -> String {
     let _ = std::fs::create_dir_all(format!("{dir}/replays"));
     let path = format!(
         "{dir}/replays/{prefix}{prop}-{}-{}-{seed}-{n}.json",
@@ -539,6 +547,7 @@ pub fn write_replay(dir: &str, prop: &str, seed: u64, n: u64, v: &Violation, tap
         "verif_seed": seed,
         "world": n,
         "tape": tape,
+        "process_history_from": process_history,
         "expanded": rep.sample,
     });
     std::fs::write(&path, serde_json::to_string_pretty(&doc).unwrap()).expect("write replay");
@@ -578,6 +587,14 @@ pub fn replay(path: &str) -> i32 {
             println!("not reproduced: world {n} ran to completion");
             0
         };
+    }
+    if let Some(from) = doc["process_history_from"].as_u64() {
+        // the worlds the worker process had run before this one, in the same order, in this process
+        let seed = doc["verif_seed"].as_u64().unwrap_or(DEFAULT_SEED);
+        for k in from..n {
+            let _ = run_one_quiet(&prop, Tier::Quick, k, Tape::search(world_seed(seed, &prop, k)));
+        }
+        println!("process history: worlds {from}..{n} replayed in this process before world {n}");
     }
     let rep = run_one_quiet(&prop, Tier::Quick, n, Tape::replay(tape));
     if let Some(e) = &rep.harness_error {
@@ -664,28 +681,56 @@ pub fn run(cfg: &RunCfg) -> i32 {
             continue;
         }
         new_violations += 1;
-        let (rep, v) = members.iter().min_by_key(|(r, _)| r.tape.len()).unwrap();
-        // shrink only the first few classes: a broken tree can produce many
-        let (tape, srep) = if shrunk_groups < 4 {
-            shrunk_groups += 1;
-            let (t, r, tries) = shrink(prop, cfg.tier, rep.world, rep.tape.clone(), class, shape, budget);
-            println!("minimised {class} [{shape}]: tape {} -> {} entries in {tries} replays", rep.tape.len(), t.len());
-            (t, r)
-        } else {
-            let r = run_one_quiet(prop, cfg.tier, rep.world, Tape::replay(rep.tape.clone()));
-            (rep.tape.clone(), r)
-        };
-        let vv = srep
-            .violations
-            .iter()
-            .find(|x| &x.class == class && &x.shape == shape)
-            .cloned()
-            .unwrap_or((*v).clone());
-        let path = write_replay(&dir, prop, seed, rep.world, &vv, &tape, &srep, "");
-        if !confirm_in_fresh_process(&path) {
-            eprintln!("HARNESS ERROR: replay of {path} in a fresh process did not reproduce {class} [{shape}]");
-            return 2;
+        // a member whose own tape reproduces the violation in a fresh process (smallest tapes first);
+        // the code under test may keep process-wide state, in which case a world can fail only because
+        // of the worlds its worker ran before it
+        let mut sorted: Vec<&(&WorldReport, &Violation)> = members.iter().collect();
+        sorted.sort_by_key(|(r, _)| r.tape.len());
+        let mut standalone: Option<(&WorldReport, &Violation, String)> = None;
+        for (rep, v) in sorted.iter().take(5) {
+            let path = write_replay(&dir, prop, seed, rep.world, v, &rep.tape, rep, "");
+            if confirm_in_fresh_process(&path) {
+                standalone = Some((*rep, *v, path));
+                break;
+            }
+            let _ = std::fs::remove_file(&path);
         }
+        let (vv, path) = match standalone {
+            Some((rep, v, path0)) => {
+                // shrink only the first few classes: a broken tree can produce many
+                if shrunk_groups < 4 {
+                    shrunk_groups += 1;
+                    let (t, r, tries) = shrink(prop, cfg.tier, rep.world, rep.tape.clone(), class, shape, budget);
+                    println!("minimised {class} [{shape}]: tape {} -> {} entries in {tries} replays", rep.tape.len(), t.len());
+                    let vv = r.violations.iter().find(|x| &x.class == class && &x.shape == shape).cloned().unwrap_or((*v).clone());
+                    let path = write_replay(&dir, prop, seed, rep.world, &vv, &t, &r, "");
+                    if confirm_in_fresh_process(&path) {
+                        (vv, path)
+                    } else {
+                        // the minimised tape leaned on state left in this process by earlier replays:
+                        // keep the unminimised one, which a fresh process does reproduce
+                        println!("minimised tape of {class} [{shape}] does not replay in a fresh process; keeping the recorded tape");
+                        let path = write_replay(&dir, prop, seed, rep.world, v, &rep.tape, rep, "");
+                        ((*v).clone(), path)
+                    }
+                } else {
+                    ((*v).clone(), path0)
+                }
+            }
+            None => {
+                let (rep, v) = sorted[0];
+                let workers = cfg.workers.max(1).min(cfg.worlds.max(1));
+                let chunk = (cfg.worlds + workers - 1) / workers;
+                let from = (rep.world / chunk.max(1)) * chunk.max(1);
+                let path = write_replay_hist(&dir, prop, seed, rep.world, v, &rep.tape, rep, "history-", Some(from));
+                if !confirm_in_fresh_process(&path) {
+                    eprintln!("HARNESS ERROR: replay of {path} in a fresh process did not reproduce {class} [{shape}], neither alone nor after the worlds {from}..{} its worker had run before it", rep.world);
+                    return 2;
+                }
+                println!("{class} [{shape}] needs process history: reproduced by replaying worlds {from}..{} in one fresh process", rep.world);
+                ((*v).clone(), path)
+            }
+        };
         println!("  {} [{}]: {} ({} worlds this run)", vv.class, vv.shape, vv.message, members.len());
         violation_lines.push(format!("VIOLATION property={prop} replay={path}"));
     }
